@@ -55,7 +55,7 @@ func validateTrace(ctx *core.Ctx, lines []traceLine, label string) ([]m3Reject, 
 		buf.WriteByte('\n')
 	}
 	cfg := "CONSTANT Dev = {}\nINIT TInit\nNEXT TNext\nINVARIANT Report\nINVARIANT TLatch\nINVARIANT TPrefix\nINVARIANT FramesOK\nCHECK_DEADLOCK FALSE\n"
-	res, err := ctx.RunTLC(core.TLCOpts{Module: "C12Trace", Cfg: cfg, Files: map[string][]byte{"c12_trace.ndjson": buf.Bytes()},
+	res, err := runTLC(ctx, core.TLCOpts{Module: "C12Trace", Cfg: cfg, Files: map[string][]byte{"c12_trace.ndjson": buf.Bytes()},
 		Workers: 1, Timeout: 8 * time.Minute, Label: label})
 	if err != nil {
 		return nil, nil, m3Stats{}, err
